@@ -91,6 +91,11 @@ class Formation(Harness):
             pn = idx
             out.append({"pn": pn, "share": share, "circ": False, "shapes": ["s"] * pn, "names": ["p%d" % i for i in range(pn)],
                         "twin": twin, "units": True, "tight": tier == "quick"})
+        if tier == "quick":
+            # a hybrid, a lone protocluster with a neighbourhood of its own (its extent can coincide with the hybrid's while its
+            # core lies elsewhere) and a further lone protocluster without one
+            out.append({"pn": 4, "share": [[0, 1]], "circ": False, "shapes": ["s"] * 4, "names": ["p%d" % i for i in range(4)],
+                        "twin": [None, 0, None, None], "units": True, "tight": [3]})
         return out
 
     def vars(self, var):
@@ -131,7 +136,7 @@ class Formation(Harness):
                 c.append(L.And(ext[0][0] <= core[0][0], core[1][1] <= ext[1][1]))
         if var.get("tight"):
             # quick tier: in the unit layouts only the first unit has a neighbourhood, the others have extent == core
-            for i in range(1, var["pn"]):
+            for i in (range(1, var["pn"]) if var["tight"] is True else var["tight"]):
                 if self.src(var, i) == i and self.src(var, i) != 0:
                     core, ext = self.parts(var, v, i)
                     c.append(L.And(core[0][0] == ext[0][0], core[0][1] == ext[0][1]))
